@@ -104,6 +104,7 @@ class Noise(Family):
             y_arg = list(ints) if signal == "int-list" else np.array(ints)
         else:
             y_arg = arr(ctx, ys)
+        snr_before = list(snr) if isinstance(snr, np.ndarray) else None
         with normal_calls(ctx, inst) as calls:
             if via == "process":
                 out = process.noise_gauss(y_arg, snr=snr, **kw)
@@ -111,7 +112,20 @@ class Noise(Family):
             else:
                 w = Weaver(arr(ctx, xs), y_arg).noise(snr, **kw)
                 rx, out = w.get()
-            cs = calls()
+            cs = list(calls())
+            if snr_before is not None:
+                # the caller's per-sample SNR array is an input, not scratch space: a second call with the very same
+                # arguments must ask the generator for the same scale
+                ctx.claim("snr-array-not-modified", len(snr) == len(snr_before) and ctx.And(*[ctx.eq(a, b) for a, b in zip(list(snr), snr_before)]))
+                if via == "process":
+                    process.noise_gauss(y_arg if signal else arr(ctx, ys), snr=snr, **kw)
+                else:
+                    Weaver(arr(ctx, xs), y_arg if signal else arr(ctx, ys)).noise(snr, **kw)
+                cs2 = list(calls())
+                if len(cs) == 1 and len(cs2) == 2:
+                    s1 = list(np.asarray(cs2[0]["scale"], dtype=object).reshape(-1))
+                    s2 = list(np.asarray(cs2[1]["scale"], dtype=object).reshape(-1))
+                    ctx.claim("same-arguments-same-scale", len(s1) == len(s2) and ctx.And(*[ctx.eq(a, b) for a, b in zip(s1, s2)]))
         ctx.claim("exactly-one-draw", len(cs) == 1, {"calls": len(cs)})
         if len(cs) != 1:
             return
